@@ -32,7 +32,7 @@ from vgi_rpc.http.server import _state_token as st
 
 PROPERTY = "C14"
 LEVEL = "exploration"
-QUICK_RUNS = 640
+QUICK_RUNS = 500
 THOROUGH_RUNS = 40_000
 QUICK_BUDGET_S = 100
 THOROUGH_BUDGET_S = 1500
